@@ -3,9 +3,10 @@ CONSTANTS
   Callers = {"c1", "c2", "c3"}
   Cancellers = {"k1", "k2"}
   Periodic = FALSE
+  DeleteByName = FALSE
   DropOnClaim = FALSE
   MaxRuns = 1000
-INVARIANTS AtMostOnce NoOverlap NoPanic NoLostRun NotDropped CancelBranchNoRun NameReusable
+INVARIANTS AtMostOnce NoOverlap NoPanic NoLostRun NotDropped CancelBranchNoRun NameReusable NameSlotUnique SuccessorReachable
 CONSTRAINT HWM
 POSTCONDITION TraceAccepted
 CHECK_DEADLOCK FALSE
